@@ -489,7 +489,7 @@ fn bombs() -> BigResult {
             (Ok(Some(y)), _) if y.len() > L => r.failures.push(("bound: decoded more than CALLDATA_LIMIT bytes".into(), c)),
             (Ok(Some(y)), Some(n)) if y.len() == n => {}
             (Ok(None), None) => {}
-            (Ok(None), Some(n)) if n == L => r.failures.push((format!("F12 branch bound: a {} of exactly CALLDATA_LIMIT zero bytes is refused", name), c)),
+            (Ok(None), Some(n)) if n == L => r.failures.push((format!("F12 branch bound: a {} is refused (every branch must accept up to CALLDATA_LIMIT)", name), c)),
             _ => r.failures.push(("bomb: unexpected result".into(), c)),
         }
         if ms > 5000 { r.failures.push(("bomb: decoding took more than 5 s".into(), json!({"bomb": name, "ms": ms}))); }
@@ -516,6 +516,115 @@ fn bombs() -> BigResult {
     one("nada stream of CALLDATA_LIMIT zeros", 1, nada_zeros(L), Some(L));
     one("nada stream of CALLDATA_LIMIT-1 zeros", 1, nada_zeros(L - 1), Some(L - 1));
     r
+}
+
+
+// ---- engine level: the same bytes through the hex field and through the base64 field ----
+/// Three engines in one process (own databases), driven through the RPC method table with raw
+/// JSON requests: A submits every payload in the hex field, B in the base64 field (packed by
+/// from_bytes), C in the base64 field with '=' padding appended. Every response must be identical.
+fn engine_twins() -> (Vec<(String, Value)>, Value) {
+    use brc20_prog::verif_hooks::{set_config, verif_rpc_methods, BRC20ProgEngine, Brc20ProgConfig, Brc20ProgDatabase};
+    let mut failures: Vec<(String, Value)> = vec![];
+    let mut cfg = Brc20ProgConfig::from_env();
+    cfg.fail_on_bitcoin_rpc_error = false;
+    cfg.evm_record_traces = true;
+    set_config(cfg);
+    let rt = match tokio::runtime::Builder::new_multi_thread().worker_threads(2).enable_all().build() { Ok(r) => r, Err(e) => return (failures, json!({"skipped": e.to_string()})) };
+    let dirs: Vec<tempfile::TempDir> = (0..3).map(|_| tempfile::tempdir().expect("tempdir")).collect();
+    let mut methods = vec![];
+    for d in &dirs {
+        let db = match Brc20ProgDatabase::new(d.path()) { Ok(d) => d, Err(e) => return (failures, json!({"skipped": e.to_string()})) };
+        methods.push(verif_rpc_methods(BRC20ProgEngine::new(db)));
+    }
+    let call = |m: &jsonrpsee::Methods, method: &str, params: Value| -> Value {
+        let req = json!({"jsonrpc": "2.0", "id": 1, "method": method, "params": params}).to_string();
+        let r = catch_unwind(AssertUnwindSafe(|| rt.block_on(async { m.raw_json_request(&req, 1).await.map(|(r, _)| r.get().to_string()) })));
+        match r {
+            Err(_) => json!({"panic": true}),
+            Ok(Err(e)) => json!({"bad_request": e.to_string()}),
+            Ok(Ok(s)) => { let v: Value = serde_json::from_str(&s).unwrap_or(json!({"unparsable": s})); json!({"result": v.get("result").cloned(), "error": v.get("error").cloned()}) }
+        }
+    };
+    // field encodings per engine
+    let fields = |mode: usize, x: &[u8]| -> (Value, Value) {
+        match mode {
+            0 => (json!(format!("0x{}", hex::encode(x))), Value::Null),
+            1 => (Value::Null, json!(Base64Bytes::from_bytes(x.to_vec().into()).map(|b| b.to_string()).unwrap_or_default())),
+            _ => (Value::Null, json!(format!("{}==", Base64Bytes::from_bytes(x.to_vec().into()).map(|b| b.to_string()).unwrap_or_default()))),
+        }
+    };
+    let zero32 = format!("0x{}", "00".repeat(32));
+    let pk = "7465737420706b736372697074";
+    let mut steps: Vec<Value> = vec![];
+    let mut compare = |name: &str, rs: &[Value], failures: &mut Vec<(String, Value)>| {
+        let same = rs.iter().all(|r| r == &rs[0]);
+        let panicked = rs.iter().any(|r| r.get("panic").is_some());
+        steps.push(json!({"step": name, "identical": same, "ok": rs[0].get("error").map(|e| e.is_null()).unwrap_or(false)}));
+        if panicked && !name.starts_with("call with base64_data") { failures.push(("engine: a request panicked".into(), json!({"step": name}))); }
+        if !same { failures.push(("engine: the hex field and the base64 field (with or without padding) gave different responses for the same bytes".into(), json!({"step": name, "hex": rs[0].to_string().chars().take(300).collect::<String>(), "base64": rs[1].to_string().chars().take(300).collect::<String>(), "base64_padded": rs[2].to_string().chars().take(300).collect::<String>()}))); }
+    };
+    // tiny contract: runtime returns 42; 3000 trailing zero bytes make the packed form differ a lot from the raw one
+    let mut deploy1 = hex::decode("600a600c600039600a6000f3602a60005260206000f3").unwrap();
+    deploy1.extend(vec![0u8; 3000]);
+    let helper = std::fs::read_to_string("/repo/test_utils/data/brc20_prog_helper_deploy_tx_data").ok().and_then(|s| hex::decode(s.trim().trim_start_matches("0x")).ok());
+    let mut tx_idx = 0u64;
+    let mut addr: Vec<Option<Value>> = vec![None, None];
+    let mut deploys: Vec<(String, Vec<u8>)> = vec![("deploy tiny contract + 3000 zero bytes".into(), deploy1)];
+    if let Some(h) = helper { deploys.push(("deploy BRC20_Prog helper contract (test_utils data)".into(), h)); }
+    for (k, (name, data)) in deploys.iter().enumerate() {
+        let rs: Vec<Value> = (0..3).map(|m| { let (d, b) = fields(m, data); call(&methods[m], "brc20_deploy", json!([pk, d, b, 42, zero32, tx_idx, format!("insc{}", tx_idx), data.len() as u64 * 2, format!("0x{}", "01".repeat(32))])) }).collect();
+        addr[k] = rs[0].pointer("/result/contractAddress").cloned();
+        compare(name, &rs, &mut failures);
+        tx_idx += 1;
+    }
+    for (name, to, data) in [("call tiny contract", addr[0].clone(), vec![0xdbu8, 0xdf, 0xf2, 0xc1]), ("call with empty data", addr[0].clone(), vec![]), ("call helper contract", addr[1].clone(), vec![0xdb, 0xdf, 0xf2, 0xc1]), ("call a non-existent contract with zero-heavy data", Some(json!("0x00000000000000000000000000000000000000aa")), { let mut v = vec![0u8; 500]; v[7] = 0xff; v[8] = 0xff; v[9] = 0xff; v }) ] {
+        if to.is_none() { continue; }
+        let rs: Vec<Value> = (0..3).map(|m| { let (d, b) = fields(m, &data); call(&methods[m], "brc20_call", json!([pk, to, Value::Null, d, b, 42, zero32, tx_idx, format!("insc{}", tx_idx), 1000, format!("0x{}", "02".repeat(32))])) }).collect();
+        let added = rs[0].get("result").map(|r| !r.is_null()).unwrap_or(false);
+        compare(name, &rs, &mut failures);
+        if added { tx_idx += 1; }
+    }
+    {
+        let data = vec![0x02u8, 0xf8, 0x00, 0x01, 0x02];
+        let rs: Vec<Value> = (0..3).map(|m| { let (d, b) = fields(m, &data); call(&methods[m], "brc20_transact", json!([d, b, 42, zero32, tx_idx, format!("insc{}", tx_idx), 1000, format!("0x{}", "03".repeat(32))])) }).collect();
+        compare("transact with an undecodable raw transaction", &rs, &mut failures);
+    }
+    // an empty base64 string / a lone '=': must be answered (as "no data"), not panic
+    for (i, b) in ["", "=", "=AAAA"].iter().enumerate() {
+        let rs: Vec<Value> = (0..3).map(|m| call(&methods[m], "brc20_call", json!([pk, addr[0], Value::Null, Value::Null, b, 42, zero32, tx_idx, format!("empty{}", i), 1000, zero32]))).collect();
+        let added = rs[0].get("result").map(|r| !r.is_null()).unwrap_or(false);
+        if rs.iter().any(|r| r.get("panic").is_some()) {
+            failures.push(("F7 panic: decode_bytes_from_inscription_data panics (the part before the first '=' is empty)".into(), json!({"rpc": "brc20_call", "base64_data": b})));
+        }
+        compare(&format!("call with base64_data = {:?}", b), &rs, &mut failures);
+        if added { tx_idx += 1; }
+    }
+    // both fields / neither field: an error on every engine, no transaction
+    {
+        let rs: Vec<Value> = (0..3).map(|m| call(&methods[m], "brc20_call", json!([pk, addr[0], Value::Null, "0x00", "AAA", 42, zero32, tx_idx, "both", 1000, zero32]))).collect();
+        compare("call with both fields", &rs, &mut failures);
+        if rs[0].get("error").map(|e| e.is_null()).unwrap_or(true) { failures.push(("engine: a call with both the hex and the base64 field was accepted".into(), json!({"response": rs[0]}))); }
+        let rs: Vec<Value> = (0..3).map(|m| call(&methods[m], "brc20_call", json!([pk, addr[0], Value::Null, Value::Null, Value::Null, 42, zero32, tx_idx, "neither", 1000, zero32]))).collect();
+        compare("call with neither field", &rs, &mut failures);
+        if rs[0].get("error").map(|e| e.is_null()).unwrap_or(true) { failures.push(("engine: a call with neither field was accepted".into(), json!({"response": rs[0]}))); }
+    }
+    let rs: Vec<Value> = (0..3).map(|m| call(&methods[m], "brc20_finaliseBlock", json!([42, zero32, tx_idx]))).collect();
+    compare("finalise block", &rs, &mut failures);
+    let rs: Vec<Value> = (0..3).map(|m| call(&methods[m], "eth_getBlockByNumber", json!(["0x0", true]))).collect();
+    // mineTimestamp is the wall-clock time the block took to build: not part of the comparison
+    let rs: Vec<Value> = rs.into_iter().map(|mut r| { if let Some(o) = r.pointer_mut("/result").and_then(|x| x.as_object_mut()) { o.remove("mineTimestamp"); } r }).collect();
+    compare("block 0 with full transactions (mineTimestamp excluded)", &rs, &mut failures);
+    let hashes: Vec<Value> = rs[0].pointer("/result/transactions").and_then(|t| t.as_array()).map(|a| a.iter().filter_map(|t| t.get("hash").cloned()).collect()).unwrap_or_default();
+    for h in &hashes {
+        let rs: Vec<Value> = (0..3).map(|m| call(&methods[m], "eth_getTransactionReceipt", json!([h]))).collect();
+        compare("receipt", &rs, &mut failures);
+        let rs: Vec<Value> = (0..3).map(|m| call(&methods[m], "debug_traceTransaction", json!([h]))).collect();
+        compare("trace", &rs, &mut failures);
+    }
+    let n_tx = hashes.len();
+    drop(methods);
+    (failures, json!({"engines": 3, "transactions_in_block": n_tx, "steps": steps}))
 }
 
 pub fn run(out: &Path, seed: u64, thorough: bool) -> Result<(), Box<dyn std::error::Error>> {
@@ -592,6 +701,8 @@ pub fn run(out: &Path, seed: u64, thorough: bool) -> Result<(), Box<dyn std::err
         res
     });
 
+    let (efail, engine_report) = engine_twins();
+    for (w, c) in efail { cx.fail(&w, c); }
     let mut big_notes: Vec<Value> = vec![];
     let mut big_checks = 0u64;
     for r in big_results {
@@ -616,6 +727,7 @@ pub fn run(out: &Path, seed: u64, thorough: bool) -> Result<(), Box<dyn std::err
         "impl_property_checks_big": big_checks,
         "big_payloads": n_big,
         "big_notes": big_notes,
+        "engine_twins": engine_report,
         "harness_seconds": t_start.elapsed().as_secs_f64(),
         "samples": samples,
         "impl_failures": failures,
